@@ -48,6 +48,31 @@ var TwoBlocks = []uint32{
 	I(7, 0, 0, 3, 0x13),  // 0x100c addi x3,x0,7
 }
 
+// FourBlocks: blocks of 2, 2, 1 and 1 instructions (0x1000, 0x1008, 0x1010,
+// 0x1014): block moves over a range whose end blocks are equally long while an
+// inner block is not.
+var FourBlocks = []uint32{
+	I(5, 0, 0, 1, 0x13), // 0x1000 addi x1,x0,5
+	J(12, 0),            // 0x1004 jal x0,+12 -> 0x1010
+	I(1, 3, 0, 3, 0x13), // 0x1008 addi x3,x3,1
+	J(8, 0),             // 0x100c jal x0,+8 -> 0x1014
+	I(1, 1, 0, 1, 0x13), // 0x1010 addi x1,x1,1
+	I(7, 0, 0, 3, 0x13), // 0x1014 addi x3,x0,7
+}
+
+// Blocks441: blocks of 4, 4 and 1 instructions (0x1000, 0x1010, 0x1020).
+var Blocks441 = []uint32{
+	I(1, 0, 0, 1, 0x13),       // 0x1000 addi x1,x0,1
+	I(2, 0, 0, 2, 0x13),       // 0x1004 addi x2,x0,2
+	I(3, 0, 0, 3, 0x13),       // 0x1008 addi x3,x0,3
+	J(20, 0),                  // 0x100c jal x0,+20 -> 0x1020
+	I(4, 0, 0, 4, 0x13),       // 0x1010 addi x4,x0,4
+	I(5, 0, 0, 5, 0x13),       // 0x1014 addi x5,x0,5
+	I(6, 0, 0, 6, 0x13),       // 0x1018 addi x6,x0,6
+	J(0x200000-28, 0),         // 0x101c jal x0,-28 -> 0x1000
+	I(7, 0, 0, 7, 0x13),       // 0x1020 addi x7,x0,7
+}
+
 func Bytes(words []uint32) []byte {
 	var bs []byte
 	for _, w := range words {
